@@ -9,7 +9,7 @@ from vf.spec import H, pick
 from vf.fast import run_native
 from vf import docgen as dg
 
-from dznpy.adv_shell import Builder
+from dznpy.adv_shell import Builder, MultiClientPortCfg
 from dznpy.adv_shell.common import Configuration, FacilitiesOrigin
 from dznpy.adv_shell.port_selection import PortSelect, PortWildcard, PortsSemanticsCfg, PortsCfg
 from dznpy.adv_shell.types import AdvShellError, RuntimeSemantics
@@ -30,8 +30,9 @@ ASSUMPTIONS = [
     'code on the resulting concrete selection/port sets',
     'explicitly naming an INJECTED requires port is treated as "don\'t care" (the property only says such '
     'ports never need a semantics): any documented outcome is accepted there, internal errors are not',
-    'the model is a component whose ports all use one trivial interface; multi-client settings absent '
-    '(covered by C04/C13)',
+    'the model is a component whose ports all use one trivial interface; a multi-client setting is present only '
+    'in h_build_mc (a multi-client port must resolve to MTS like any other port would; its own rejection '
+    'message may be the ValueError raised by DznPortItf)',
 ]
 OUTSIDE = ('more than 2 provides and 2 requires ports, selection name pools above 4 names, combined '
            'provides x requires variation beyond the representative partner configurations')
@@ -206,6 +207,60 @@ def h_build_requires(n: int, si: int, mi: int, ri: int, partner: int) -> bool:
                       pick(R_STATES, ri))
 
 
+# ---- H3: the provides side in the presence of a multi-client port setting ------------------------------
+_MC_CACHE: Dict[frozenset, object] = {}
+
+
+def mc_model(pset: frozenset):
+    if pset not in _MC_CACHE:
+        ports = [dg.port(n, ['I'], 'provides') for n in P_NAMES if n in pset]
+        _MC_CACHE[pset] = dg.parse(dg.root([
+            dg.enum(['Res'], ['Ok', 'No']),
+            dg.interface(['I'], [dg.event('Claim', 'in', ['Res']), dg.event('Release'), dg.event('e'),
+                                 dg.event('o', 'out')]),
+            dg.component(['C'], ports)]))
+    return _MC_CACHE[pset]
+
+
+def _build_mc_case(p_sts, p_mts, pset: frozenset, mcport: str) -> bool:
+    fc = mc_model(pset)
+    ref_p = ref_side(p_sts, p_mts, pset)
+    expect_ok = ref_p[0] == 'ok' and not (nonempty(p_sts) and nonempty(p_mts)) and mcport in pset
+    if expect_ok:
+        for p in pset:
+            if ref_p[1][p] is None:
+                expect_ok = False
+        # a multi-client port is served through the dispatcher: it must be an MTS port, and being the
+        # multi-client port does not give a port a semantics by itself
+        if expect_ok and ref_p[1][mcport] != RuntimeSemantics.MTS:
+            expect_ok = False
+    try:
+        ports_cfg = PortsCfg(PortsSemanticsCfg(mk_select(p_sts), mk_select(p_mts)),
+                             PortsSemanticsCfg(mk_select(('W', PortWildcard.NONE)), mk_select(('W', PortWildcard.ALL))),
+                             MultiClientPortCfg(mcport, 'Claim', ns_ids_t('Ok'), 'Release'))
+        cfg = Configuration('M.dzn', fc, 'Shell', ns_ids_t('C'), ports_cfg, FacilitiesOrigin.CREATE, 'c')
+        result = Builder().build(cfg)
+        elements = create_dzn_elements(cfg, fc, find_fqn(fc, ns_ids_t('C')).get_single_instance())
+    except AdvShellError:
+        return not expect_ok
+    except ValueError as exc:          # DznPortItf's own post-check (explicit raise with a message)
+        return (not expect_ok) and 'only allowed for MTS ports' in str(exc)
+    if not expect_ok or len(result.files) != 8:
+        return False
+    got_p = {p.port.name: p.semantics for p in elements.provides_ports}
+    got_mc = {p.port.name for p in elements.provides_ports if p.multiclient is not None}
+    return got_p == dict(ref_p[1]) and got_mc == {mcport}
+
+
+MC_OPTS = options(['p0', 'p1', 'zz'])
+
+
+def h_build_mc(si: int, mi: int, pi: int, mc: int) -> bool:
+    """Provides selections x provides port sets with a multi-client setting on p0 / p1 / an unknown port."""
+    return run_native(_build_mc_case, pick(MC_OPTS, si), pick(MC_OPTS, mi), pick(P_SETS, pi),
+                      pick(['p0', 'p1', 'zz'], mc))
+
+
 SMALL = options(['p0']) + [('S', frozenset(['zz']))]
 SMALL_R = options(['r0']) + [('S', frozenset(['zz']))]
 
@@ -248,6 +303,12 @@ SPECS = [
       shards=lambda p: [f'si == {i}' for i in range(p['O'])],
       bounds='Builder.build: requires selections over a {N}-name pool (incl. unknown and provides-port '
              'names) x each requires port absent/normal/injected x 3 representative provides sides'),
+    H('h_build_mc', 'deep',
+      pre=['0 <= si < {O}', '0 <= mi < {O}', '0 <= pi < 4', '0 <= mc < 3'],
+      quick=dict(O=_nopt(3), ct=280, pt=30), thorough=dict(O=_nopt(3), ct=900, pt=30),
+      shards=lambda p: [f'si == {i}' for i in range(p['O'])],
+      bounds='Builder.build with a multi-client setting on p0 / p1 / an unknown port: provides selections over '
+             'p0, p1 and an unknown name x provides port sets of <= 2 ports (interface with claim/release events)'),
     H('h_build_both', 'deep',
       pre=['0 <= a < 5', '0 <= b < 5', '0 <= c < 5', '0 <= d < 5', '0 <= pi < 2', '0 <= ri < 3'],
       quick=dict(ct=280, pt=30), thorough=dict(ct=600, pt=30),
